@@ -64,18 +64,26 @@ pub open spec fn elem_pos(s: Seq<u8>, i: int, first: bool) -> Option<int> {
 }
 
 impl<'de, R: Reader<'de>> Parser<R> {
-    // unchecked variant: not under contract here (C10 kernels); only called with check == false
+    // unchecked variant: proved in unit `unchecked` (== skip_one on a well-formed value followed by whitespace and
+    // `,` `]` `}` or the end of input); restated as an implication because the drivers also run on arbitrary input
     #[verifier::external_body]
     pub fn skip_one_unchecked(&mut self) -> (res: Result<(&'de [u8], ParseStatus)>)
         requires old(self).pinv(),
         ensures final(self).pinv(), final(self).same_doc(old(self)),
+            value_end(old(self).read.data(), old(self).read.idx() as int).is_some()
+                && follow_ok(old(self).read.data(), value_end(old(self).read.data(), old(self).read.idx() as int).unwrap())
+                ==> res.is_ok() && final(self).read.idx() == value_end(old(self).read.data(), old(self).read.idx() as int).unwrap()
+                    && res.unwrap().0@ == old(self).read.data().subrange(ws_end(old(self).read.data(), old(self).read.idx() as int), value_end(old(self).read.data(), old(self).read.idx() as int).unwrap()),
     { unimplemented!() }
 
 //@extract file=src/parser.rs impl="Parser<R>" fn=parse_array_elem_lazy
 //@sig
         requires old(self).pinv(),
         ensures final(self).pinv(), final(self).same_doc(old(self)),
-            check ==> ({
+            // (the separator logic does not depend on `check`; the value step does: the validating skipper decides
+            // well-formedness, the unchecked one is only specified on a well-formed element in a well-formed context —
+            // and then yields the same item: "the unchecked iterators agree with the checked ones")
+            ({
                 let s = old(self).read.data();
                 let i = old(self).read.idx() as int;
                 match elem_pos(s, i, *old(first)) {
@@ -91,8 +99,10 @@ impl<'de, R: Reader<'de>> Parser<R> {
                             match v {
                                 None => res.is_err(),
                                 Some(vs) => {
-                                    &&& (res.is_ok() <==> value_end(s, vs).is_some())
-                                    &&& (res.is_ok() ==> res.unwrap().is_some() && !*final(first)
+                                    let wf_ctx = value_end(s, vs).is_some() && follow_ok(s, value_end(s, vs).unwrap());
+                                    &&& (check ==> (res.is_ok() <==> value_end(s, vs).is_some()))
+                                    &&& (!check && wf_ctx ==> res.is_ok())
+                                    &&& ((check || wf_ctx) && res.is_ok() ==> res.unwrap().is_some() && !*final(first)
                                         && final(self).read.idx() == value_end(s, vs).unwrap()
                                         && res.unwrap().unwrap().0@ == s.subrange(ws_end(s, vs), value_end(s, vs).unwrap()))
                                 }
@@ -124,7 +134,7 @@ impl<'de, R: Reader<'de>> Parser<R> {
 //@sig
         requires old(self).pinv(),
         ensures final(self).pinv(), final(self).same_doc(old(self)),
-            check ==> ({
+            ({
                 let s = old(self).read.data();
                 let i = old(self).read.idx() as int;
                 // first call: whitespace then '{'
@@ -144,7 +154,7 @@ impl<'de, R: Reader<'de>> Parser<R> {
                         Some(ks) => {
                             // Ok only for: well-formed name, ws, ':', one well-formed value; the yielded raw
                             // text is that value's exact span
-                            &&& (res.is_ok() ==> res.unwrap().is_some() && !*final(first)
+                            &&& (check && res.is_ok() ==> res.unwrap().is_some() && !*final(first)
                                 && str_end(s, ks).is_some()
                                 && ({
                                     let c = ws_end(s, str_end(s, ks).unwrap());
@@ -153,10 +163,18 @@ impl<'de, R: Reader<'de>> Parser<R> {
                                     &&& final(self).read.idx() == value_end(s, c + 1).unwrap()
                                     &&& res.unwrap().unwrap().val@ == s.subrange(ws_end(s, c + 1), value_end(s, c + 1).unwrap())
                                 }))
+                            // unchecked mode, member well formed and followed by whitespace and `,` `}`: the same item
+                            &&& (!check && res.is_ok() && str_end(s, ks).is_some() ==> ({
+                                    let c = ws_end(s, str_end(s, ks).unwrap());
+                                    (c < s.len() && s[c] == 0x3a && value_end(s, c + 1).is_some() && follow_ok(s, value_end(s, c + 1).unwrap()))
+                                    ==> res.unwrap().is_some() && !*final(first)
+                                        && final(self).read.idx() == value_end(s, c + 1).unwrap()
+                                        && res.unwrap().unwrap().val@ == s.subrange(ws_end(s, c + 1), value_end(s, c + 1).unwrap())
+                                }))
                             &&& (str_end(s, ks).is_none() ==> res.is_err())
                             &&& (str_end(s, ks).is_some() ==> ({
                                     let c = ws_end(s, str_end(s, ks).unwrap());
-                                    (!(c < s.len() && s[c] == 0x3a) || value_end(s, c + 1).is_none()) ==> res.is_err()
+                                    (!(c < s.len() && s[c] == 0x3a) || (check && value_end(s, c + 1).is_none())) ==> res.is_err()
                                 }))
                         }
                     }
